@@ -717,6 +717,15 @@ func runImplRaw(line string) string {
 			return bad
 		}
 		return "ok " + hx([]byte(otp.LeftPadHex(string(s), int(w))))
+	case "fromstr":
+		if len(f) != 2 {
+			return bad
+		}
+		t, ok := unhex(f[1])
+		if !ok {
+			return bad
+		}
+		return fmt.Sprintf("ok %d %d", otp.DigitsFromStr(string(t)), otp.AlgorithmFromStr(string(t)))
 	case "musthex":
 		if len(f) != 3 {
 			return bad
